@@ -972,6 +972,35 @@ Lemma zlen_concat_shift s els :
   zlen (concat (map elem_buf (map (shift_elem s) els))) = zlen (concat (map elem_buf els)).
 Proof. rewrite map_elem_buf_shift. reflexivity. Qed.
 
+(* [lia] (zify) is very slow in the presence of hypotheses [forallb (region_ok ..) .. = true] *)
+Ltac nobool :=
+  repeat match goal with
+         | H : forallb _ _ = true |- _ => clear H
+         | H : region_ok _ _ = true |- _ => clear H
+         end.
+
+Lemma region_ok_intro sl r :
+  let fr := region_fr sl r in
+  0 <= fr_base fr < 65536 -> 0 <= fr_limit fr < 65536 ->
+  (fr_base fr <= fr_limit fr \/ (is_me r = true /\ fr_base fr = fr_limit fr + 1)) ->
+  zlen (region_buf r) = end_off fr - base_off fr ->
+  match r with
+  | RBios els len => len = zlen (concat (map elem_buf els))
+  | RME _ (Some es) fso => fso = fso_of es
+  | RME _ None fso => fso = 0
+  | RRaw i _ => 2 <= i < ifd_nslots
+  | RGap _ _ => True
+  end ->
+  region_ok sl r = true.
+Proof.
+  intros fr H1 H2 H3 H4 H5. unfold region_ok. fold fr.
+  apply andb_true_iff; split; [apply andb_true_iff; split; [apply andb_true_iff; split|]|].
+  - unfold fr_ok. rewrite U16_eq. lia.
+  - apply orb_true_iff. destruct H3 as [H3|[H3 H3']]; [left; lia|right; rewrite H3; lia].
+  - lia.
+  - destruct r as [els len|b [es|] f|i b|g b]; try lia; reflexivity.
+Qed.
+
 Lemma tightened_wf pol t f0 f1 rest pre mb fp fso els bl post :
   wf_tree t -> tm_facts pol t f0 f1 rest pre mb fp fso els bl post ->
   wf_tree (tightened t f0 f1 rest pre mb fp fso els bl post).
@@ -987,24 +1016,27 @@ Proof.
   apply forallb_app' in F as [Fp F]. cbn [forallb] in F.
   apply andb_true_iff in F as [FM F]. apply andb_true_iff in F as [FB Fq].
   unfold wf_tree, tightened. cbn [t_ifd t_slots t_regions t_size]. fold ub bo.
+  unfold end_off, base_off in ADJ, E2, LM'. change ifd_block with 4096 in ADJ, E2, LM'.
+  clearbody ub bo. clear W ER.
+  apply region_ok_spec in FM as (_ & _ & _ & M4). clear FB.
   split; [exact W1|]. split; [exact W2|]. split.
   { cbn [forallb] in *. apply andb_true_iff in W3 as [_ W3]. apply andb_true_iff in W3 as [_ W3].
-    rewrite W3. unfold fr_ok. cbn [fr_base fr_limit]. consts. lia. }
+    rewrite W3, andb_true_r. unfold fr_ok. cbn [fr_base fr_limit]. rewrite U16_eq. nobool.
+    apply andb_true_iff; split; repeat (apply andb_true_iff; split); lia. }
   split.
   { rewrite forallb_app. cbn [forallb].
     rewrite (forallb_region_ok_plain f0 f1 _ _ rest pre P1 Fp).
     rewrite (forallb_region_ok_plain f0 f1 _ _ rest post P2 Fq).
-    rewrite !andb_true_r. cbn [andb].
-    apply region_ok_spec in FM as (_ & _ & _ & M4).
+    rewrite !andb_true_r. cbn [andb]. nobool.
     apply andb_true_iff. split.
-    - unfold region_ok. cbn [region_fr region_buf is_me]. rewrite slot_1.
-      unfold fr_ok, end_off, base_off. cbn [fr_base fr_limit].
-      rewrite zlen_zfirstn by lia.
-      destruct fp; consts; lia.
-    - unfold region_ok. cbn [region_fr region_buf is_me map concat elem_buf]. rewrite slot_0.
-      unfold fr_ok, end_off, base_off. cbn [fr_base fr_limit].
-      rewrite zlen_app, zlen_concat_shift, zlen_zskipn by lia.
-      unfold end_off, base_off in E2, LM'. consts. lia. }
+    - apply region_ok_intro; cbn [region_fr region_buf is_me]; rewrite ?slot_1;
+        unfold end_off, base_off; cbn [fr_base fr_limit]; change ifd_block with 4096; try lia.
+      + rewrite zlen_zfirstn by lia. lia.
+      + exact M4.
+    - apply region_ok_intro; cbn [region_fr region_buf is_me map concat elem_buf]; rewrite ?slot_0;
+        unfold end_off, base_off; cbn [fr_base fr_limit]; change ifd_block with 4096; try lia.
+      + rewrite zlen_app, zlen_concat_shift, zlen_zskipn by lia. lia.
+      + rewrite zlen_app, zlen_concat_shift, zlen_zskipn by lia. lia. }
   split.
   { apply chain_mid in C as (a & Cp & BM & C).
     cbn [chain] in C. cbn [region_fr] in BM, C. rewrite slot_1 in *. rewrite slot_0 in C.
@@ -1012,8 +1044,9 @@ Proof.
     rewrite chain_app. rewrite (chain_plain f0 f1 _ _ rest pre _ P1 Fp). rewrite Cp.
     cbn [chain region_fr]. rewrite slot_1, slot_0.
     unfold base_off, end_off in *. cbn [fr_base fr_limit].
-    replace (fr_base f1 * ifd_block =? a) with true by lia.
-    replace (ub * ifd_block =? (ub - 1 + 1) * ifd_block) with true by lia.
+    rewrite BM, Z.eqb_refl.
+    replace ((ub - 1 + 1) * ifd_block) with (ub * ifd_block) by (f_equal; lia).
+    rewrite Z.eqb_refl.
     rewrite (chain_plain f0 f1 _ _ rest post _ P2 Fq). exact C. }
   rewrite !count_app, !count_cons in *. cbn [is_me is_bios] in *. lia.
 Qed.
@@ -2059,3 +2092,7 @@ Lemma c12_freed_padding img t pol t' : good_img img -> parse img = Ok (RootFlash
   exists tail els' bl', In (RBios (BPad tail 0 :: els') bl') (t_regions t') /\
     is_erased tail pol = true /\ zlen tail = base_off (bios_fr t) - base_off (bios_fr t').
 Proof. intros G P T. destruct (parse_inv _ _ _ G P) as (W & _). eapply tm_freed_tree; eauto. Qed.
+
+Lemma c12_size img t pol t' out : good_img img -> parse img = Ok (RootFlash t, pol) ->
+  tm pol t = Ok t' -> save pol t' = Ok out -> zlen out = zlen img.
+Proof. intros G P T S. exact (proj2 (c12_bytes_outside img t pol t' out G P T S)). Qed.
